@@ -723,23 +723,26 @@ theorem backActLoop_ok (p input : List Nat) (m : Match) (n max dsm : Nat) :
         · simp only [ho]
           by_cases hc : (ins p ic == pass_copy) = true
           · simp only [hc, if_true]
-            have hmv : AccB n max (if dsr - dsm > 0 then
-                ({ a with out := (a.out.take dsm ++ (a.out.drop dsr).take (dsr - dsm) ++
-                    a.out.drop (dsm + ((a.out.drop dsr).take (dsr - dsm)).length)).take (a.out.length - (dsr - dsm)) }, dsm)
-                else (a, dsr)).1 := by
-              split
-              · refine ⟨ha.1, ?_⟩
-                simp only [List.length_take]
-                have := ha.2; omega
-              · exact ha
-            cases hcp : backCopy input m.startReplace m.endReplace max _ with
-            | none => simpa [ActResOKB] using hmv
-            | some a2 =>
-              have hk := backCopy_ok input _ _ n max _ a2 hmv hcp
-              simp only []
-              apply ih
-              · exact ⟨by simp [setRange_length, hk.1], hk.2⟩
-              · exact Or.inr rfl
+            by_cases hguard : (decide (dsr - dsm > 0) && decide (dsr + (dsr - dsm) > max)) = true
+            · simp only [hguard, if_true]; exact ha
+            · simp only [hguard, Bool.false_eq_true, if_false]
+              have hmv : AccB n max (if dsr - dsm > 0 then
+                  ({ a with out := (a.out.take dsm ++ (a.out.drop dsr).take (dsr - dsm) ++
+                      a.out.drop (dsm + ((a.out.drop dsr).take (dsr - dsm)).length)).take (a.out.length - (dsr - dsm)) }, dsm)
+                  else (a, dsr)).1 := by
+                split
+                · refine ⟨ha.1, ?_⟩
+                  simp only [List.length_take]
+                  have := ha.2; omega
+                · exact ha
+              cases hcp : backCopy input m.startReplace m.endReplace max _ with
+              | none => simpa [ActResOKB] using hmv
+              | some a2 =>
+                have hk := backCopy_ok input _ _ n max _ a2 hmv hcp
+                simp only []
+                apply ih
+                · exact ⟨by simp [setRange_length, hk.1], hk.2⟩
+                · exact Or.inr rfl
           · simp only [hc, Bool.false_eq_true, ↓reduceIte]
             cases hv : varAction p ic vars with
             | none => simp [ActResOKB]
